@@ -125,6 +125,12 @@ def _frame_image(rng, files, exp, idx, unit, x="1cm", y="1cm", reuse=None, missi
     # part names are case-sensitive and free-form: camera / scanner / Windows producers keep names such as PHOTO_1.PNG, Scan_2.Jpg
     ext = random.Random(f"odf-picture-name:{idx}:{im['sha'][:6]}").choice([im["ext"]] * 6 + [im["ext"].upper()] * 3 + [im["ext"].title()])
     name = f"Pictures/img{idx}{ext}" if reuse is None else reuse["name"]
+    ctype = im["ctype"]
+    if reuse is None and random.Random(f"odf-picture-untyped:{idx}:{im['sha'][:6]}").random() < 0.12:
+        # LibreOffice's replacement images have no extension at all, other producers use extensions no MIME table knows: the type of
+        # such a part is not claimed, the rest of the image interface is
+        name = random.Random(f"odf-picture-untyped-name:{idx}").choice([f"ObjectReplacements/Object {idx}", f"Pictures/img{idx}.met", f"Pictures/img{idx}"])
+        ctype = None
     im["name"] = name
     if not missing:
         files[name] = im["data"]
@@ -141,7 +147,7 @@ def _frame_image(rng, files, exp, idx, unit, x="1cm", y="1cm", reuse=None, missi
             txt = txt[1:] if txt.startswith("0.") else (txt + "." if "." not in txt else txt)
         return f"{txt}{u}"
     if not missing:       # a frame whose picture part is absent cannot yield an image; the others are numbered 1..n
-        exp.images.append({"sha": im["sha"], "ctype": im["ctype"], "w": 24 * kw, "h": 24 * kh, "unit": unit})
+        exp.images.append({"sha": im["sha"], "ctype": ctype, "w": 24 * kw, "h": 24 * kh, "unit": unit})
     return (f'<draw:frame draw:name="Image{idx}" svg:x="{x}" svg:y="{y}" svg:width="{length(kw)}" svg:height="{length(kh)}"><draw:image xlink:href="{name}" xlink:type="simple"/></draw:frame>', im)
 
 
